@@ -1147,3 +1147,56 @@ func vh_C04_NilMapReceiver() {
 	}
 	vfReach("end")
 }
+
+// a stream set is copied (Clone, or MinusStreams with an argument that does not touch the key), then a stream taken
+// from the COPY is sorted by index - the one stream operation that rearranges the storage of the stream it is called
+// on: the stream the original set holds under that key still shows exactly its elements, in their order
+func vh_C04_StreamSetCopyThenSort() {
+	vfSetMapOrder(3)
+	k, other := vfInt("k"), vfInt("other-key")
+	vfAssume(k != other)
+	a, b, c := vfInt("a"), vfInt("b"), vfInt("c")
+	viaMinus := vfChoose("copied-by", 2) == 1
+	if vfChoose("family", 2) == 0 {
+		set := StreamSetFromMap(map[int]*StreamDef[int]{k: StreamFromArray([]int{a, b, c})})
+		var cp *StreamSetDef[int, int]
+		if !vfNoPanic("nopanic", func() {
+			if viaMinus {
+				cp = set.MinusStreams(StreamSetFromMap(map[int]*StreamDef[int]{other: StreamFromArray([]int{a})}))
+			} else {
+				cp = set.Clone()
+			}
+		}) || cp == nil {
+			return
+		}
+		st := cp.MapSetDef[k]
+		vfAssert("copy-holds-the-stream", st != nil && vfSliceEq([]int(*st), []int{a, b, c}))
+		if st != nil && !vfPanics(func() { st.SortByIndex(func(i, j int) bool { return (*st)[i] > (*st)[j] }) }) {
+			orig := set.MapSetDef[k]
+			vfAssert("Clone/existing-collections-unchanged", orig != nil && vfSliceEq([]int(*orig), []int{a, b, c}))
+		}
+	} else {
+		mk := func(vs ...int) *StreamForInterfaceDef { return StreamForInterface.FromArray(c05Box(vs)) }
+		set := StreamSetForInterface.Clone()
+		set.Set(k, mk(a, b, c))
+		var cp *StreamSetForInterfaceDef
+		if !vfNoPanic("nopanic", func() {
+			if viaMinus {
+				arg := StreamSetForInterface.Clone()
+				arg.Set(other, mk(a))
+				cp = set.MinusStreams(arg)
+			} else {
+				cp = set.Clone()
+			}
+		}) || cp == nil {
+			return
+		}
+		st, _ := cp.Get(k).(*StreamForInterfaceDef)
+		vfAssert("copy-holds-the-stream", st != nil && vfSliceEq(c04Unbox(st), []int{a, b, c}))
+		if st != nil && !vfPanics(func() { st.SortByIndex(func(i, j int) bool { return (*st)[i].(int) > (*st)[j].(int) }) }) {
+			orig, _ := set.Get(k).(*StreamForInterfaceDef)
+			vfAssert("Clone/existing-collections-unchanged", orig != nil && vfSliceEq(c04Unbox(orig), []int{a, b, c}))
+		}
+	}
+	vfReach("end")
+}
